@@ -293,6 +293,7 @@ def object_network(ctx):
 @PROP.obligation('C05.deser', canaries=[
     mut.replace_expr('keys', 'deserialize_address', "'p2wsh' if not witver else 'p2tr'", "'p2wsh'", '32-byte v1 programs reported as p2wsh'),
     mut.replace_expr('keys', 'deserialize_address', 'len(public_key_hash) == 20', 'len(public_key_hash) <= 20', 'short programs reported as p2wpkh'),
+    mut.replace_expr('keys', 'deserialize_address', 'len(public_key_hash) == 20 and (not witver)', 'len(public_key_hash) == 20', 'every 20-byte program is P2WPKH whatever its witness version'),
 ])
 def deser(ctx):
     """deserialize_address: bech32 program of 20 bytes -> p2wpkh, otherwise version 0 -> p2wsh and version >= 1 -> p2tr (witness type
@@ -326,7 +327,8 @@ def deser(ctx):
             except intv.Unknown as e:
                 ctx.undecided('bech32 script type not decidable for a %d byte program of version %d: %s' % (ln, ver, str(e)[:80]))
     ctx.saw('bech32 (program length, version) -> script type: %s' % {k: v for k, v in sorted(table.items())})
-    exp = {(20, 0): 'p2wpkh', (32, 0): 'p2wsh', (32, 1): 'p2tr', (32, 16): 'p2tr', (2, 1): 'p2tr', (40, 1): 'p2tr'}
+    # a 20-byte program is P2WPKH under version 0 only: under versions 1..16 it is a witness-vN program like any other length
+    exp = {(20, 0): 'p2wpkh', (32, 0): 'p2wsh', (32, 1): 'p2tr', (32, 16): 'p2tr', (2, 1): 'p2tr', (40, 1): 'p2tr', (20, 1): 'p2tr', (20, 16): 'p2tr', (2, 0): 'p2wsh'}
     for k, v in exp.items():
         ctx.require(table.get(k) == v, q, 'bech32 program of %d bytes with witness version %d is reported as %s, expected %s' % (k[0], k[1], table.get(k), v), fn,
                     'locking scripts are reported with the wrong address type')
